@@ -270,6 +270,60 @@ impl ValT for Vp {
     fn serial(&self) -> u64 { 0 }
 }
 
+/// Key / value WITHOUT drop glue that are NOT `Copy` and whose `Clone` is hand-written and observable
+/// (it is logged, and it honours the armed Clone panic): `clone()` / `clone_from()` of a collection must
+/// call it once per stored key and once per stored value -- a bitwise copy is not a clone.
+pub struct Kn {
+    pub id: u64,
+    pub stamp: u64,
+}
+impl KeyT for Kn {
+    const DROP: bool = false;
+    fn mk(id: u64, stamp: u64) -> Self { Kn { id, stamp } }
+    fn id(&self) -> u64 { self.id }
+    fn stamp(&self) -> u64 { self.stamp }
+    fn serial(&self) -> u64 { 0 }
+}
+impl Hash for Kn {
+    fn hash<H: Hasher>(&self, state: &mut H) { key_hash(self.id, state) }
+}
+impl PartialEq for Kn {
+    fn eq(&self, o: &Self) -> bool { key_eq(self.id, o.id) }
+}
+impl Eq for Kn {}
+impl Clone for Kn {
+    fn clone(&self) -> Self {
+        let p = with_ctx(|c| countdown(&mut c.clone_panic_nth));
+        if p {
+            std::panic::panic_any(HvPanic("clone"));
+        }
+        with_ctx(|c| c.clone_log.push((0, 0)));
+        Kn { id: self.id, stamp: self.stamp }
+    }
+}
+impl From<&Kn> for Kn {
+    fn from(k: &Kn) -> Kn { Kn { id: k.id, stamp: k.stamp } }
+}
+#[derive(PartialEq)]
+pub struct Vn(pub u64);
+impl ValT for Vn {
+    const DROP: bool = false;
+    fn mk(v: u64) -> Self { Vn(v) }
+    fn val(&self) -> u64 { self.0 }
+    fn set(&mut self, v: u64) { self.0 = v }
+    fn serial(&self) -> u64 { 0 }
+}
+impl Clone for Vn {
+    fn clone(&self) -> Self {
+        let p = with_ctx(|c| countdown(&mut c.clone_panic_nth));
+        if p {
+            std::panic::panic_any(HvPanic("clone"));
+        }
+        with_ctx(|c| c.clone_log.push((0, 0)));
+        Vn(self.0)
+    }
+}
+
 // ------------------------------------------------------------------------------------------
 // hasher
 // ------------------------------------------------------------------------------------------
